@@ -44,15 +44,33 @@ def run(ctx):
 
     # -- R13.1 ---------------------------------------------------------------------------------------
     ctx.rule("R13.1", "latent / cloneable placeholder type sets equal the sets named in the statement")
-    f = prog.func("pptx.slide", "SlideLayout.iter_cloneable_placeholders")
+    f0 = prog.func("pptx.slide", "SlideLayout.iter_cloneable_placeholders")
+    # the selection may live in a helper property of the class the iterator delegates to (one level)
+    f = f0
+    memo = None
     s, node = _enum_set(prog, f, "latent_ph_types")
+    if s is None:
+        for n in ast.walk(f0.node):
+            if isinstance(n, ast.Attribute) and dotted(n.value) == "self" and f0.cls is not None:
+                h = prog.lookup(f0.cls, n.attr)
+                if h is not None and h is not f0 and _enum_set(prog, h, "latent_ph_types")[0] is not None:
+                    f = h
+                    s, node = _enum_set(prog, h, "latent_ph_types")
+                    if h.kind == "lazyproperty":
+                        memo = h
     polarity = any(isinstance(n, ast.Compare) and isinstance(n.ops[0], ast.NotIn) and dotted(n.comparators[0]) == "latent_ph_types"
                    for n in ast.walk(f.node))
     if s == {"DATE", "FOOTER", "SLIDE_NUMBER"} and polarity:
-        ctx.ok("R13.1", "latent_ph_types", sample={"set": sorted(s), "use": "ph_type not in latent_ph_types -> yield"})
+        ctx.ok("R13.1", "latent_ph_types", sample={"set": sorted(s), "use": "ph_type not in latent_ph_types -> yield", "in": f.qualname})
     else:
         ctx.violation("R13.1", "latent_ph_types", "latent placeholder set is %s (expected DATE, FOOTER, SLIDE_NUMBER; excluded with "
                       "`not in`)" % (sorted(s) if s else s), file=f.file, line=f.line)
+    if memo is not None:
+        ctx.violation("R13.1", "SlideLayout.iter_cloneable_placeholders:memo", "the cloneable placeholders are computed once (%s is a "
+                      "lazyproperty): the set and order cloned to later slides is frozen at the first add_slide and no longer follows "
+                      "the layout" % memo.qualname, file=memo.file, line=memo.line)
+    else:
+        ctx.ok("R13.1", "SlideLayout.iter_cloneable_placeholders:memo", nontrivial=False)
     g = prog.func("pptx.slide", "NotesSlide.clone_master_placeholders")
     s2, _ = _enum_set(prog, g, "cloneable")
     pol2 = any(isinstance(n, ast.Compare) and isinstance(n.ops[0], ast.In) and dotted(n.comparators[0]) == "cloneable"
@@ -64,7 +82,7 @@ def run(ctx):
                       "`in`)" % (sorted(s2) if s2 else s2), file=g.file, line=g.line)
     # both iterate the source placeholders in order
     for fn, src in ((f, "self.placeholders"), (g, "notes_master.placeholders")):
-        loops = [n for n in ast.walk(fn.node) if isinstance(n, ast.For) and dotted(n.iter) == src]
+        loops = [n for n in ast.walk(fn.node) if isinstance(n, (ast.For, ast.comprehension)) and dotted(n.iter) == src]
         if loops:
             ctx.ok("R13.1", fn.qualname + ":order", nontrivial=False)
         else:
@@ -106,10 +124,14 @@ def run(ctx):
             if isinstance(a, ast.Name) and i < len(nps_params):
                 flow2[a.id] = nps_params[i]
     stores = {}
+    conditional = set()
     for n in walk_own(nps.node):
         if isinstance(n, ast.Assign) and isinstance(n.targets[0], ast.Attribute) and dotted(n.targets[0].value) == "ph" \
                 and isinstance(n.value, ast.Name):
-            stores[n.value.id] = n.targets[0].attr
+            if n in nps.node.body:
+                stores[n.value.id] = n.targets[0].attr
+            else:
+                conditional.add(n.targets[0].attr)
     want = {"ph_type": "type", "ph_orient": "orient", "ph_sz": "sz", "ph_idx": "idx"}
     for src, attr in want.items():
         p1 = flow.get(src)
@@ -118,6 +140,9 @@ def run(ctx):
         key = "%s->ph.%s" % (src, attr)
         if dst == attr:
             ctx.ok("R13.2", key, sample={"source": "sp." + src, "via": [p1, p2], "store": "ph.%s" % dst})
+        elif attr in conditional:
+            ctx.violation("R13.2", key, "ph.%s is stored only under a condition in new_placeholder_sp: for the other placeholder kinds "
+                          "the clone falls back to the attribute's default" % attr, file=nps.file, line=nps.line)
         else:
             ctx.violation("R13.2", key, "source sp.%s ends in ph.%s (via %s, %s), expected ph.%s" % (src, dst, p1, p2, attr),
                           file=cp.file, line=cp.line)
@@ -220,3 +245,33 @@ def run(ctx):
     else:
         ctx.violation("R13.4", "clone_placeholder uses allocators", "cloned placeholder is not named/numbered by the allocators",
                       file=cp.file, line=cp.line)
+
+    # -- R13.5 ---------------------------------------------------------------------------------------
+    ctx.rule("R13.5", "layout -> master inheritance table maps every layout placeholder type onto a type a master can carry")
+    lp = prog.cls("pptx.shapes.placeholder", "LayoutPlaceholder")
+    bp = lp.methods.get("_base_placeholder") if lp else None
+    if bp is None:
+        raise AnalysisError("anchor vanished: LayoutPlaceholder._base_placeholder")
+    table = None
+    for n in ast.walk(bp.node):
+        if isinstance(n, ast.Dict) and len(n.keys) >= 5:
+            v = prog.const(n, bp.module)
+            if isinstance(v, dict) and all(isinstance(k, EnumMember) and isinstance(x, EnumMember) for k, x in v.items()):
+                table = {k.name: x.name for k, x in v.items()}
+    MASTER = {"TITLE", "BODY", "DATE", "FOOTER", "SLIDE_NUMBER"}  # placeholder kinds of a slide master (ECMA-376 Part 1, 19.3.1.36 / 19.7.10)
+    if table is None:
+        ctx.error("LayoutPlaceholder._base_placeholder", "inheritance table does not fold")
+    else:
+        ctx.count("base_ph_rows", len(table))
+        for k, v in sorted(table.items()):
+            key = "base_ph_type[%s]" % k
+            if v not in MASTER:
+                ctx.violation("R13.5", key, "%s inherits from master placeholder type %s, which a slide master never carries: a layout "
+                              "placeholder of that type without its own geometry reports None for position and size, and so do its "
+                              "clones" % (k, v), file=bp.file, line=bp.line)
+            elif k in MASTER and v != k:
+                ctx.violation("R13.5", key, "%s inherits from %s instead of the master placeholder of its own type" % (k, v), file=bp.file, line=bp.line)
+            elif k == "CENTER_TITLE" and v != "TITLE":
+                ctx.violation("R13.5", key, "a centered title inherits from %s, not from the master title" % v, file=bp.file, line=bp.line)
+            else:
+                ctx.ok("R13.5", key, sample={"layout_type": k, "master_type": v})
